@@ -148,6 +148,7 @@ package go9p
 //@   property C01 C12
 //@   requires fc != nil && 0 <= size && size <= 4294967288
 //@   ensures  err == nil <==> len(fc.Buf) >= size + 7
+//@   ensures  err != nil ==> errok(err)
 //@   ensures  err == nil ==> hdr(fc, size+7, id) && p == fc.Buf[7:]
 //@   ensures  err != nil ==> p == nil && fc.Size == old(fc.Size) && fc.Type == old(fc.Type) && fc.Tag == old(fc.Tag) && fc.Pkt == old(fc.Pkt)
 //@   ensures  mem_unchanged_except(fc.Buf, 0, ite(err == nil, 7, 0))
@@ -156,6 +157,9 @@ package go9p
 // ---------------------------------------------------------------------------
 // Message constructors. Type numbers and offsets are the protocol's, written as literals.
 
+// errors produced by the codec are non-nil *Error values
+//@ pure errwf(e) = dyntype(e, "*Error") ==> ival(e, "*Error") != nil
+//@ pure errok(e) = dyntype(e, "*Error") && ival(e, "*Error") != nil
 //@ pure qideq(a, b) = a.Type == b.Type && a.Version == b.Version && a.Path == b.Path
 //@ pure direq(a, b) = a.Size == b.Size && a.Type == b.Type && a.Dev == b.Dev && qideq(a.Qid, b.Qid) && a.Mode == b.Mode
 //@      && a.Atime == b.Atime && a.Mtime == b.Mtime && a.Length == b.Length && a.Name == b.Name && a.Uid == b.Uid
@@ -165,6 +169,7 @@ package go9p
 //@   property C01
 //@   requires fc != nil && len(version) <= 65535
 //@   ensures  err == nil <==> len(fc.Buf) >= 13 + len(version)
+//@   ensures  err != nil ==> errok(err)
 //@   ensures  err == nil ==> hdr(fc, 13+len(version), 100) && u32le(fc.Pkt, 7) == msize && wstr(fc.Pkt, 11, version)
 //@   ensures  err == nil ==> fc.Msize == msize && fc.Version == version
 //@   assigns  fc.Size, fc.Type, fc.Tag, fc.Pkt, fc.Msize, fc.Version, fc.Buf[0:13+len(version)]
@@ -173,6 +178,7 @@ package go9p
 //@   property C01 C12
 //@   requires fc != nil && len(version) <= 65535
 //@   ensures  err == nil <==> len(fc.Buf) >= 13 + len(version)
+//@   ensures  err != nil ==> errok(err)
 //@   ensures  err == nil ==> hdr(fc, 13+len(version), 101) && u32le(fc.Pkt, 7) == msize && wstr(fc.Pkt, 11, version)
 //@   ensures  err == nil ==> fc.Msize == msize && fc.Version == version
 //@   assigns  fc.Size, fc.Type, fc.Tag, fc.Pkt, fc.Msize, fc.Version, fc.Buf[0:13+len(version)]
@@ -182,6 +188,7 @@ package go9p
 //@   property C01
 //@   requires fc != nil && len(uname) <= 65535 && len(aname) <= 65535
 //@   ensures  err == nil <==> len(fc.Buf) >= tauthsz(uname, aname, dotu)
+//@   ensures  err != nil ==> errok(err)
 //@   ensures  err == nil ==> hdr(fc, tauthsz(uname, aname, dotu), 102) && u32le(fc.Pkt, 7) == fid && wstr(fc.Pkt, 11, uname)
 //@                           && wstr(fc.Pkt, 13+len(uname), aname) && (dotu ==> u32le(fc.Pkt, 15+len(uname)+len(aname)) == unamenum)
 //@   ensures  err == nil ==> fc.Fid == fid && fc.Uname == uname && fc.Aname == aname && (dotu ==> fc.Unamenum == unamenum)
@@ -192,6 +199,7 @@ package go9p
 //@   property C01
 //@   requires fc != nil && len(uname) <= 65535 && len(aname) <= 65535
 //@   ensures  err == nil <==> len(fc.Buf) >= tattachsz(uname, aname, dotu)
+//@   ensures  err != nil ==> errok(err)
 //@   ensures  err == nil ==> hdr(fc, tattachsz(uname, aname, dotu), 104) && u32le(fc.Pkt, 7) == fid && u32le(fc.Pkt, 11) == afid
 //@                           && wstr(fc.Pkt, 15, uname) && wstr(fc.Pkt, 17+len(uname), aname)
 //@                           && (dotu ==> u32le(fc.Pkt, 19+len(uname)+len(aname)) == unamenum)
@@ -202,6 +210,7 @@ package go9p
 //@   property C01
 //@   requires fc != nil
 //@   ensures  err == nil <==> len(fc.Buf) >= 9
+//@   ensures  err != nil ==> errok(err)
 //@   ensures  err == nil ==> hdr(fc, 9, 108) && u16le(fc.Pkt, 7) == oldtag && fc.Oldtag == oldtag
 //@   assigns  fc.Size, fc.Type, fc.Tag, fc.Pkt, fc.Oldtag, fc.Buf[0:9]
 
@@ -209,6 +218,7 @@ package go9p
 //@   property C01
 //@   requires fc != nil
 //@   ensures  err == nil <==> len(fc.Buf) >= 12
+//@   ensures  err != nil ==> errok(err)
 //@   ensures  err == nil ==> hdr(fc, 12, 112) && u32le(fc.Pkt, 7) == fid && u8(fc.Pkt, 11) == mode && fc.Fid == fid && fc.Mode == mode
 //@   assigns  fc.Size, fc.Type, fc.Tag, fc.Pkt, fc.Fid, fc.Mode, fc.Buf[0:12]
 
@@ -217,6 +227,7 @@ package go9p
 //@   property C01
 //@   requires fc != nil && len(name) <= 65535 && len(ext) <= 65535
 //@   ensures  err == nil <==> len(fc.Buf) >= tcreatesz(name, ext, dotu)
+//@   ensures  err != nil ==> errok(err)
 //@   ensures  err == nil ==> hdr(fc, tcreatesz(name, ext, dotu), 114) && u32le(fc.Pkt, 7) == fid && wstr(fc.Pkt, 11, name)
 //@                           && u32le(fc.Pkt, 13+len(name)) == perm && u8(fc.Pkt, 17+len(name)) == mode
 //@                           && (dotu ==> wstr(fc.Pkt, 18+len(name), ext))
@@ -227,6 +238,7 @@ package go9p
 //@   property C01
 //@   requires fc != nil
 //@   ensures  err == nil <==> len(fc.Buf) >= 23
+//@   ensures  err != nil ==> errok(err)
 //@   ensures  err == nil ==> hdr(fc, 23, 116) && u32le(fc.Pkt, 7) == fid && u64le(fc.Pkt, 11) == offset && u32le(fc.Pkt, 19) == count
 //@   ensures  err == nil ==> fc.Fid == fid && fc.Offset == offset && fc.Count == count
 //@   assigns  fc.Size, fc.Type, fc.Tag, fc.Pkt, fc.Fid, fc.Offset, fc.Count, fc.Buf[0:23]
@@ -235,6 +247,7 @@ package go9p
 //@   property C01
 //@   requires fc != nil && len(data) <= 4294967265 && count == len(data) && obj(data) != obj(fc.Buf)
 //@   ensures  err == nil <==> len(fc.Buf) >= 23 + len(data)
+//@   ensures  err != nil ==> errok(err)
 //@   ensures  err == nil ==> hdr(fc, 23+len(data), 118) && u32le(fc.Pkt, 7) == fid && u64le(fc.Pkt, 11) == offset && u32le(fc.Pkt, 19) == count
 //@                           && byteseqold(fc.Pkt, 23, data, 0, len(data))
 //@   ensures  err == nil ==> fc.Fid == fid && fc.Offset == offset && fc.Count == count && obj(fc.Data) == obj(fc.Pkt) && off(fc.Data) == off(fc.Pkt) + 23 && len(fc.Data) >= len(data)
@@ -244,6 +257,7 @@ package go9p
 //@   property C01
 //@   requires fc != nil
 //@   ensures  err == nil <==> len(fc.Buf) >= 11
+//@   ensures  err != nil ==> errok(err)
 //@   ensures  err == nil ==> hdr(fc, 11, 120) && u32le(fc.Pkt, 7) == fid && fc.Fid == fid
 //@   assigns  fc.Size, fc.Type, fc.Tag, fc.Pkt, fc.Fid, fc.Buf[0:11]
 
@@ -251,6 +265,7 @@ package go9p
 //@   property C01
 //@   requires fc != nil
 //@   ensures  err == nil <==> len(fc.Buf) >= 11
+//@   ensures  err != nil ==> errok(err)
 //@   ensures  err == nil ==> hdr(fc, 11, 122) && u32le(fc.Pkt, 7) == fid && fc.Fid == fid
 //@   assigns  fc.Size, fc.Type, fc.Tag, fc.Pkt, fc.Fid, fc.Buf[0:11]
 
@@ -258,6 +273,7 @@ package go9p
 //@   property C01
 //@   requires fc != nil
 //@   ensures  err == nil <==> len(fc.Buf) >= 11
+//@   ensures  err != nil ==> errok(err)
 //@   ensures  err == nil ==> hdr(fc, 11, 124) && u32le(fc.Pkt, 7) == fid && fc.Fid == fid
 //@   assigns  fc.Size, fc.Type, fc.Tag, fc.Pkt, fc.Fid, fc.Buf[0:11]
 
@@ -265,6 +281,7 @@ package go9p
 //@   property C01
 //@   requires fc != nil && d != nil && strsok(d) && statsize(d, dotu) <= 65535
 //@   ensures  err == nil <==> len(fc.Buf) >= 13 + statsize(d, dotu)
+//@   ensures  err != nil ==> errok(err)
 //@   ensures  err == nil ==> hdr(fc, 13+statsize(d, dotu), 126) && u32le(fc.Pkt, 7) == fid && u16le(fc.Pkt, 11) == statsize(d, dotu)
 //@                           && wstat(fc.Pkt, 13, d, dotu)
 //@   ensures  err == nil ==> fc.Fid == fid && direq(fc.Dir, d)
@@ -274,6 +291,7 @@ package go9p
 //@   property C01
 //@   requires fc != nil && aqid != nil
 //@   ensures  err == nil <==> len(fc.Buf) >= 20
+//@   ensures  err != nil ==> errok(err)
 //@   ensures  err == nil ==> hdr(fc, 20, 103) && wqid(fc.Pkt, 7, aqid) && qideq(fc.Qid, aqid)
 //@   assigns  fc.Size, fc.Type, fc.Tag, fc.Pkt, all(fc.Qid), fc.Buf[0:20]
 
@@ -281,6 +299,7 @@ package go9p
 //@   property C01
 //@   requires fc != nil && aqid != nil
 //@   ensures  err == nil <==> len(fc.Buf) >= 20
+//@   ensures  err != nil ==> errok(err)
 //@   ensures  err == nil ==> hdr(fc, 20, 105) && wqid(fc.Pkt, 7, aqid) && qideq(fc.Qid, aqid)
 //@   assigns  fc.Size, fc.Type, fc.Tag, fc.Pkt, all(fc.Qid), fc.Buf[0:20]
 
@@ -288,6 +307,7 @@ package go9p
 //@   property C01
 //@   requires fc != nil
 //@   ensures  err == nil <==> len(fc.Buf) >= 7
+//@   ensures  err != nil ==> errok(err)
 //@   ensures  err == nil ==> hdr(fc, 7, 109)
 //@   assigns  fc.Size, fc.Type, fc.Tag, fc.Pkt, fc.Buf[0:7]
 
@@ -295,6 +315,7 @@ package go9p
 //@   property C01
 //@   requires fc != nil && qid != nil
 //@   ensures  err == nil <==> len(fc.Buf) >= 24
+//@   ensures  err != nil ==> errok(err)
 //@   ensures  err == nil ==> hdr(fc, 24, 113) && wqid(fc.Pkt, 7, qid) && u32le(fc.Pkt, 20) == iounit && qideq(fc.Qid, qid) && fc.Iounit == iounit
 //@   assigns  fc.Size, fc.Type, fc.Tag, fc.Pkt, all(fc.Qid), fc.Iounit, fc.Buf[0:24]
 
@@ -302,6 +323,7 @@ package go9p
 //@   property C01
 //@   requires fc != nil && qid != nil
 //@   ensures  err == nil <==> len(fc.Buf) >= 24
+//@   ensures  err != nil ==> errok(err)
 //@   ensures  err == nil ==> hdr(fc, 24, 115) && wqid(fc.Pkt, 7, qid) && u32le(fc.Pkt, 20) == iounit && qideq(fc.Qid, qid) && fc.Iounit == iounit
 //@   assigns  fc.Size, fc.Type, fc.Tag, fc.Pkt, all(fc.Qid), fc.Iounit, fc.Buf[0:24]
 
@@ -309,6 +331,7 @@ package go9p
 //@   property C01
 //@   requires fc != nil
 //@   ensures  err == nil <==> len(fc.Buf) >= 11
+//@   ensures  err != nil ==> errok(err)
 //@   ensures  err == nil ==> hdr(fc, 11, 119) && u32le(fc.Pkt, 7) == count && fc.Count == count
 //@   assigns  fc.Size, fc.Type, fc.Tag, fc.Pkt, fc.Count, fc.Buf[0:11]
 
@@ -316,6 +339,7 @@ package go9p
 //@   property C01
 //@   requires fc != nil
 //@   ensures  err == nil <==> len(fc.Buf) >= 7
+//@   ensures  err != nil ==> errok(err)
 //@   ensures  err == nil ==> hdr(fc, 7, 121)
 //@   assigns  fc.Size, fc.Type, fc.Tag, fc.Pkt, fc.Buf[0:7]
 
@@ -323,6 +347,7 @@ package go9p
 //@   property C01
 //@   requires fc != nil
 //@   ensures  err == nil <==> len(fc.Buf) >= 7
+//@   ensures  err != nil ==> errok(err)
 //@   ensures  err == nil ==> hdr(fc, 7, 123)
 //@   assigns  fc.Size, fc.Type, fc.Tag, fc.Pkt, fc.Buf[0:7]
 
@@ -330,6 +355,7 @@ package go9p
 //@   property C01
 //@   requires fc != nil
 //@   ensures  err == nil <==> len(fc.Buf) >= 7
+//@   ensures  err != nil ==> errok(err)
 //@   ensures  err == nil ==> hdr(fc, 7, 127)
 //@   assigns  fc.Size, fc.Type, fc.Tag, fc.Pkt, fc.Buf[0:7]
 
@@ -337,6 +363,7 @@ package go9p
 //@   property C01 C12
 //@   requires fc != nil && d != nil && strsok(d) && statsize(d, dotu) <= 65535
 //@   ensures  err == nil <==> len(fc.Buf) >= 9 + statsize(d, dotu)
+//@   ensures  err != nil ==> errok(err)
 //@   ensures  err == nil ==> hdr(fc, 9+statsize(d, dotu), 125) && u16le(fc.Pkt, 7) == statsize(d, dotu) && wstat(fc.Pkt, 9, d, dotu)
 //@   ensures  err == nil ==> direq(fc.Dir, d)
 //@   assigns  fc.Size, fc.Type, fc.Tag, fc.Pkt, all(fc.Dir), fc.Buf[0:9+statsize(d, dotu)]
@@ -345,6 +372,7 @@ package go9p
 //@   property C01 C12 C14
 //@   requires fc != nil && count <= 4294967284
 //@   ensures  err == nil <==> len(fc.Buf) >= 11 + count
+//@   ensures  err != nil ==> errok(err)
 //@   ensures  err == nil ==> hdr(fc, 11+count, 117) && u32le(fc.Pkt, 7) == count && fc.Count == count && fc.Data == fc.Pkt[11:11+count]
 //@   ensures  mem_unchanged_except(fc.Buf, 0, 11)
 //@   assigns  fc.Size, fc.Type, fc.Tag, fc.Pkt, fc.Count, fc.Data, fc.Buf[0:11]
@@ -369,6 +397,7 @@ package go9p
 //@   property C01
 //@   requires fc != nil && len(data) <= 4294967284 && obj(data) != obj(fc.Buf)
 //@   ensures  err == nil <==> len(fc.Buf) >= 11 + len(data)
+//@   ensures  err != nil ==> errok(err)
 //@   ensures  err == nil ==> hdr(fc, 11+len(data), 117) && u32le(fc.Pkt, 7) == len(data) && fc.Count == len(data)
 //@                           && byteseqold(fc.Pkt, 11, data, 0, len(data))
 //@   assigns  fc.Size, fc.Type, fc.Tag, fc.Pkt, fc.Count, fc.Data, fc.Buf[0:11+len(data)]
@@ -382,6 +411,7 @@ package go9p
 //@   ensures  err == nil ==> hdr(fc, rerrorsz(fc, dotu), 107) && wstr(fc.Pkt, 7, fc.Error) && (dotu ==> u32le(fc.Pkt, 9+len(fc.Error)) == errornum && fc.Errornum == errornum)
 //@   ensures  err == nil && !deref(Akaros) ==> fc.Error == error
 //@   ensures  !deref(Akaros) ==> (err == nil <==> len(fc.Buf) >= 9 + len(error) + ite(dotu, 4, 0))
+//@   ensures  err != nil ==> errok(err)
 //@   assigns  fc.Size, fc.Type, fc.Tag, fc.Pkt, fc.Error, fc.Errornum, elems(fc.Buf)
 
 // ---------------------------------------------------------------------------
@@ -428,6 +458,7 @@ package go9p
 //@   requires fc != nil && len(wnames) <= 65535 && twalksz(wnames) <= 4294967295
 //@   requires forall k int :: 0 <= k && k < len(wnames) ==> len(wnames[k]) <= 65535
 //@   ensures  err == nil <==> len(fc.Buf) >= twalksz(wnames)
+//@   ensures  err != nil ==> errok(err)
 //@   ensures  err == nil ==> hdr(fc, twalksz(wnames), 110) && u32le(fc.Pkt, 7) == fid && u32le(fc.Pkt, 11) == newfid && u16le(fc.Pkt, 15) == len(wnames)
 //@   ensures  err == nil ==> forall k int :: 0 <= k && k < len(wnames) ==> wstr(fc.Pkt, nameoff(wnames, k), wnames[k])
 //@   ensures  err == nil ==> fc.Fid == fid && fc.Newfid == newfid && len(fc.Wname) == len(wnames)
@@ -452,6 +483,7 @@ package go9p
 //@   property C01
 //@   requires fc != nil && len(wqids) <= 65535
 //@   ensures  err == nil <==> len(fc.Buf) >= 9 + 13*len(wqids)
+//@   ensures  err != nil ==> errok(err)
 //@   ensures  err == nil ==> hdr(fc, 9+13*len(wqids), 111) && u16le(fc.Pkt, 7) == len(wqids)
 //@   ensures  err == nil ==> forall k int :: 0 <= k && k < len(wqids) ==> wqid(fc.Pkt, 9+13*k, wqids[k])
 //@   ensures  err == nil ==> len(fc.Wqid) == len(wqids) && forall k int :: 0 <= k && k < len(wqids) ==> qideq(fc.Wqid[k], wqids[k])
@@ -768,3 +800,314 @@ package go9p
 //@   property C01 C15
 //@   requires d != nil && strsok(d) && statsize(d, dotu) <= 65537
 //@   ensures  err == nil && d2 != nil && amt == len(b) && len(rest) == 0 && dirsame(d2, d, dotu) && d2.Size == statsize(d, dotu) - 2
+
+// ---------------------------------------------------------------------------
+// Server framework: protocol guards (C05), panic freedom (C06), negotiation (C12), fid table (C04)
+//
+// Ghost counters per handler: nfwd = calls into the file-server implementation (SrvReqOps method),
+// nans = answers produced by the framework itself (RespondError / RespondR* / Respond).
+// "refuses and never forwards" and "forwards exactly once" become nfwd + nans == 1 together with the
+// guard obligations at the forwarding call.
+
+//@ pure reqok(req) = req != nil && req.Tc != nil && req.Rc != nil && req.Conn != nil && req.Conn.Srv != nil && implements(req.Conn.Srv.ops, "SrvReqOps")
+//@ pure iohdr() = 24
+
+//@ func (*Srv).walk(srv, req)
+//@   property C05 C06
+//@   requires srv != nil && reqok(req) && req.Fid != nil && req.Conn.fidpool != nil && nolocks()
+//@   ghost nfwd int = 0
+//@   ghost nans int = 0
+//@   at call(SrvReqOps.Walk) ghost nfwd := nfwd + 1
+//@   at call((*SrvReq).RespondError) ghost nans := nans + 1
+//@   at call(SrvReqOps.Walk) requires [guard.notopen] !old(req.Fid.opened)
+//@   at call(SrvReqOps.Walk) requires [guard.dir] len(old(req.Tc.Wname)) == 0 || old(req.Fid.Type) & 128 != 0
+//@   at call(SrvReqOps.Walk) requires [args] arg1 == req && req.Fid == old(req.Fid) && req.Tc == old(req.Tc) && req.Fid.User == old(req.Fid.User) && req.Newfid != nil
+//@   ensures  nfwd + nans == 1
+
+//@ func (*Srv).open(srv, req)
+//@   property C05 C06
+//@   requires srv != nil && reqok(req) && req.Fid != nil
+//@   ghost nfwd int = 0
+//@   ghost nans int = 0
+//@   at call(SrvReqOps.Open) ghost nfwd := nfwd + 1
+//@   at call((*SrvReq).RespondError) ghost nans := nans + 1
+//@   at call(SrvReqOps.Open) requires [guard.notopen] !old(req.Fid.opened)
+//@   at call(SrvReqOps.Open) requires [guard.dirread] old(req.Fid.Type) & 128 == 0 || old(req.Tc.Mode) == 0
+//@   at call(SrvReqOps.Open) requires [args] arg1 == req && req.Fid == old(req.Fid) && req.Tc == old(req.Tc) && req.Tc.Mode == old(req.Tc.Mode) && req.Fid.User == old(req.Fid.User) && !req.Fid.opened
+//@   ensures  nfwd + nans == 1
+
+// special files: DMSYMLINK|DMLINK|DMDEVICE|DMNAMEDPIPE|DMSOCKET = 0x3B00000 = 61865984
+//@ func (*Srv).create(srv, req)
+//@   property C05 C06
+//@   requires srv != nil && reqok(req) && req.Fid != nil
+//@   ghost nfwd int = 0
+//@   ghost nans int = 0
+//@   at call(SrvReqOps.Create) ghost nfwd := nfwd + 1
+//@   at call((*SrvReq).RespondError) ghost nans := nans + 1
+//@   at call(SrvReqOps.Create) requires [guard.notopen] !old(req.Fid.opened)
+//@   at call(SrvReqOps.Create) requires [guard.dir] old(req.Fid.Type) & 128 != 0
+//@   at call(SrvReqOps.Create) requires [guard.special] old(req.Conn.Dotu) || (old(req.Tc.Perm) & 61865984) == 0
+//@   at call(SrvReqOps.Create) requires [args] arg1 == req && req.Fid == old(req.Fid) && req.Tc == old(req.Tc) && req.Tc.Perm == old(req.Tc.Perm) && req.Tc.Name == old(req.Tc.Name) && req.Fid.User == old(req.Fid.User)
+//@   ensures  nfwd + nans == 1
+
+//@ func (*Srv).read(srv, req)
+//@   property C05 C06 C12
+//@   requires srv != nil && reqok(req) && req.Fid != nil && req.Conn.Msize >= 24 && len(req.Rc.Buf) >= req.Conn.Msize
+//@   ghost nfwd int = 0
+//@   ghost nans int = 0
+//@   at call(SrvReqOps.Read) ghost nfwd := nfwd + 1
+//@   at call((*SrvReq).RespondError) ghost nans := nans + 1
+//@   at call((*SrvReq).Respond) ghost nans := nans + 1
+//@   at call(SrvReqOps.Read) requires [guard.count] old(req.Tc.Count) + 24 <= old(req.Conn.Msize)
+//@   at call(SrvReqOps.Read) requires [args] arg1 == req && req.Fid == old(req.Fid) && req.Tc == old(req.Tc) && req.Tc.Count == old(req.Tc.Count) && req.Tc.Offset == old(req.Tc.Offset) && req.Fid.User == old(req.Fid.User)
+//@   at call(AuthOps.AuthRead) requires [guard.authcount] old(req.Tc.Count) + 24 <= old(req.Conn.Msize) && len(arg3) <= old(req.Tc.Count)
+//@   ensures  nfwd + nans == 1
+
+//@ func (*Srv).write(srv, req)
+//@   property C05 C06
+//@   requires srv != nil && reqok(req) && req.Fid != nil
+//@   ghost nfwd int = 0
+//@   ghost nans int = 0
+//@   at call(SrvReqOps.Write) ghost nfwd := nfwd + 1
+//@   at call((*SrvReq).RespondError) ghost nans := nans + 1
+//@   at call((*SrvReq).RespondRwrite) ghost nans := nans + 1
+//@   at call(SrvReqOps.Write) requires [guard.open] old(req.Fid.opened) && old(req.Fid.Type) & 128 == 0
+//@   at call(SrvReqOps.Write) requires [guard.mode] old(req.Fid.Omode) & 3 == 1 || old(req.Fid.Omode) & 3 == 2
+//@   at call(SrvReqOps.Write) requires [guard.count] old(req.Tc.Count) + 24 <= old(req.Conn.Msize)
+//@   at call(SrvReqOps.Write) requires [args] arg1 == req && req.Fid == old(req.Fid) && req.Tc == old(req.Tc) && req.Tc.Count == old(req.Tc.Count) && req.Tc.Offset == old(req.Tc.Offset) && req.Tc.Data == old(req.Tc.Data) && req.Fid.User == old(req.Fid.User)
+//@   ensures  nfwd + nans == 1
+
+//@ func (*Srv).clunk(srv, req)
+//@   property C05 C06
+//@   requires srv != nil && reqok(req) && req.Fid != nil
+//@   ghost nfwd int = 0
+//@   ghost nans int = 0
+//@   at call(SrvReqOps.Clunk) ghost nfwd := nfwd + 1
+//@   at call((*SrvReq).RespondError) ghost nans := nans + 1
+//@   at call((*SrvReq).RespondRclunk) ghost nans := nans + 1
+//@   at call(SrvReqOps.Clunk) requires [args] arg1 == req && req.Fid == old(req.Fid) && req.Tc == old(req.Tc)
+//@   ensures  nfwd + nans == 1
+
+//@ func (*Srv).remove(srv, req)
+//@   property C05 C06
+//@   requires srv != nil && reqok(req) && req.Fid != nil
+//@   ghost nfwd int = 0
+//@   at call(SrvReqOps.Remove) ghost nfwd := nfwd + 1
+//@   at call(SrvReqOps.Remove) requires [args] arg1 == req && req.Fid == old(req.Fid) && req.Tc == old(req.Tc)
+//@   ensures  nfwd == 1
+
+//@ func (*Srv).stat(srv, req)
+//@   property C05 C06
+//@   requires srv != nil && reqok(req) && req.Fid != nil
+//@   ghost nfwd int = 0
+//@   at call(SrvReqOps.Stat) ghost nfwd := nfwd + 1
+//@   at call(SrvReqOps.Stat) requires [args] arg1 == req && req.Fid == old(req.Fid) && req.Tc == old(req.Tc)
+//@   ensures  nfwd == 1
+
+//@ func (*Srv).wstat(srv, req)
+//@   property C05 C06
+//@   requires srv != nil && reqok(req) && req.Fid != nil
+//@   ghost nfwd int = 0
+//@   at call(SrvReqOps.Wstat) ghost nfwd := nfwd + 1
+//@   at call(SrvReqOps.Wstat) requires [args] arg1 == req && req.Fid == old(req.Fid) && req.Tc == old(req.Tc)
+//@   ensures  nfwd == 1
+
+// Behaviour allowed to the implementation's authentication callbacks (assumed, not proved):
+// they touch only the data buffer they are given and report a count within it.
+//@ iface AuthOps.AuthRead(op, afid, offset, data) (count, err)
+//@   ensures  0 <= count && count <= len(data)
+//@   assigns  elems(data)
+//@ iface AuthOps.AuthWrite(op, afid, offset, data) (count, err)
+//@   ensures  0 <= count && count <= len(data)
+//@   assigns  nothing
+
+// Fid table primitives. The table is the map conn.fidpool; a fid's reference count is guarded by the fid's mutex.
+//@ func (*Conn).FidNew(conn, fidno) (fid)
+//@   property C04 C05 C06
+//@   requires conn != nil && conn.fidpool != nil && !held(conn)
+//@   ensures  old(inmap(conn.fidpool, fidno)) ==> fid == nil && conn.fidpool[fidno] == old(conn.fidpool[fidno]) && inmap(conn.fidpool, fidno)
+//@   ensures  !old(inmap(conn.fidpool, fidno)) ==> fid != nil && fresh(fid) && fid.fid == fidno && fid.refcount == 1 && fid.Fconn == conn
+//@            && !fid.opened && fid.Type == 0 && fid.Omode == 0 && fid.User == nil && fid.Aux == nil && inmap(conn.fidpool, fidno) && conn.fidpool[fidno] == fid
+//@   ensures  forall k int :: k != fidno ==> (inmap(conn.fidpool, k) <==> old(inmap(conn.fidpool, k))) && conn.fidpool[k] == old(conn.fidpool[k])
+//@   assigns  mapof(conn.fidpool), fresh
+
+//@ func (*SrvFid).IncRef(fid)
+//@   property C04 C06
+//@   requires fid != nil && !held(fid)
+//@   ensures  fid.refcount == wrap64s(old(fid.refcount) + 1)
+//@   assigns  fid.refcount
+
+//@ func (*Conn).FidGet(conn, fidno) (fid)
+//@   property C04 C05 C06
+//@   requires conn != nil && !held(conn)
+//@   requires forall k int :: inmap(conn.fidpool, k) ==> conn.fidpool[k] != nil && !held(conn.fidpool[k])
+//@   ensures  !old(inmap(conn.fidpool, fidno)) ==> fid == nil
+//@   ensures  old(inmap(conn.fidpool, fidno)) ==> fid != nil && fid == old(conn.fidpool[fidno]) && fid.refcount == wrap64s(old(conn.fidpool[fidno].refcount) + 1)
+//@   assigns  old(conn.fidpool[fidno]).refcount
+
+// ---------------------------------------------------------------------------
+// Facts and field classes used by the framework contracts
+
+//@ fact Akaros != nil
+
+//@ immutable Srv.ops by (*Srv).Start
+//@ immutable Srv.Upool by (*Srv).Start
+//@ immutable Conn.Srv by (*Srv).NewConn
+//@ immutable Conn.fidpool by (*Srv).NewConn
+//@ immutable Conn.reqs by (*Srv).NewConn
+//@ immutable SrvReq.Conn by (*Conn).recv
+//@ immutable SrvReq.Tc by (*Conn).recv
+//@ immutable SrvReq.Rc by (*Conn).recv
+//@ immutable Conn.Msize by (*Srv).NewConn (*Srv).version
+//@ immutable Conn.Dotu by (*Srv).NewConn (*Srv).version
+//@ immutable SrvFid.Fconn by (*Conn).FidNew
+//@ immutable SrvFid.fid by (*Conn).FidNew
+
+//@ func (*Error).Error(err) (s)
+//@   property C03 C06
+//@   ensures  err != nil ==> s == err.Err
+//@   ensures  err == nil ==> len(s) == 0
+//@   assigns  nothing
+
+// connection/request well-formedness the framework maintains for every request it dispatches
+//@ pure connok(c) = c != nil && c.Srv != nil && c.fidpool != nil && c.reqs != nil && c.Msize >= 24 && c.Srv.Upool != nil && implements(c.Srv.ops, "SrvReqOps")
+//@ pure poolok(c) = forall k int :: inmap(c.fidpool, k) ==> c.fidpool[k] != nil && c.fidpool[k].Fconn == c && c.fidpool[k].fid == k
+//@ pure reqwf(req) = req != nil && req.Tc != nil && req.Rc != nil && connok(req.Conn)
+
+//@ func (*SrvReq).RespondError(req, err)
+//@   property C03 C06 C12
+//@   requires reqwf(req) && nolocks()
+//@   requires errwf(err)
+//@   at call((*Error).Error) ensures len(ret) <= 65535
+//@   at call(error.Error) ensures len(ret) <= 65535
+//@   at call(fmt.Sprintf) ensures len(ret) <= 65535
+//@   assigns  everything
+
+//@ func (*SrvReq).Respond(req)
+//@   property C03 C06 C07
+//@   requires reqwf(req) && nolocks()
+//@   at call((*SrvReq).Respond) assume arg0 != nil ==> reqwf(arg0)
+//@   assigns  everything
+
+//@ func (*Srv).version(srv, req)
+//@   property C12 C06 C05
+//@   requires srv != nil && reqwf(req) && req.Conn.Srv == srv && nolocks()
+//@   ghost nans int = 0
+//@   at call((*SrvReq).RespondError) ghost nans := nans + 1
+//@   at call((*SrvReq).RespondRversion) ghost nans := nans + 1
+//@   at call((*SrvReq).RespondError) requires [small] old(req.Tc.Msize) < 24 && req.Conn.Msize == old(req.Conn.Msize) && req.Conn.Dotu == old(req.Conn.Dotu)
+//@   at call((*SrvReq).RespondRversion) requires [msize] old(req.Tc.Msize) >= 24 && arg1 == min(old(req.Tc.Msize), old(req.Conn.Msize)) && req.Conn.Msize == arg1 && arg0 == req
+//@   at call((*SrvReq).RespondRversion) requires [dialect] (req.Conn.Dotu <==> (old(req.Tc.Version) == "9P2000.u" && old(srv.Dotu))) && (req.Conn.Dotu ==> arg2 == "9P2000.u") && (!req.Conn.Dotu ==> arg2 == "9P2000")
+//@   ensures  nans == 1
+//@   loop 1
+//@     invariant heldonly(req.Conn) && reqwf(req) && req.Conn.Msize == min(old(req.Tc.Msize), old(req.Conn.Msize)) && old(req.Tc.Msize) >= 24 && nans == 0
+//@     invariant (req.Conn.Dotu <==> (old(req.Tc.Version) == "9P2000.u" && old(srv.Dotu))) && (req.Conn.Dotu ==> ver == "9P2000.u") && (!req.Conn.Dotu ==> ver == "9P2000")
+//@   loop 2
+//@     invariant heldonly(req.Conn) && reqwf(req) && req.Conn.Msize == min(old(req.Tc.Msize), old(req.Conn.Msize)) && old(req.Tc.Msize) >= 24 && nans == 0
+//@     invariant (req.Conn.Dotu <==> (old(req.Tc.Version) == "9P2000.u" && old(srv.Dotu))) && (req.Conn.Dotu ==> ver == "9P2000.u") && (!req.Conn.Dotu ==> ver == "9P2000")
+
+//@ func (*SrvReq).RespondRversion(req, msize, version)
+//@   property C03 C06 C12
+//@   requires reqwf(req) && nolocks() && len(version) <= 65535
+//@   assigns  everything
+
+// The RespondR* family: pack the reply, fall back to Rerror when it does not fit.
+//@ func (*SrvReq).RespondRauth(req, aqid)
+//@   property C03 C06
+//@   requires reqwf(req) && nolocks() && aqid != nil
+//@   assigns  everything
+//@ func (*SrvReq).RespondRflush(req)
+//@   property C03 C06
+//@   requires reqwf(req) && nolocks()
+//@   assigns  everything
+//@ func (*SrvReq).RespondRattach(req, aqid)
+//@   property C03 C06
+//@   requires reqwf(req) && nolocks() && aqid != nil
+//@   assigns  everything
+//@ func (*SrvReq).RespondRwalk(req, wqids)
+//@   property C03 C06
+//@   requires reqwf(req) && nolocks() && len(wqids) <= 65535
+//@   assigns  everything
+//@ func (*SrvReq).RespondRopen(req, qid, iounit)
+//@   property C03 C06
+//@   requires reqwf(req) && nolocks() && qid != nil
+//@   assigns  everything
+//@ func (*SrvReq).RespondRcreate(req, qid, iounit)
+//@   property C03 C06
+//@   requires reqwf(req) && nolocks() && qid != nil
+//@   assigns  everything
+//@ func (*SrvReq).RespondRread(req, data)
+//@   property C03 C06
+//@   requires reqwf(req) && nolocks() && len(data) <= 4294967284 && obj(data) != obj(req.Rc.Buf)
+//@   assigns  everything
+//@ func (*SrvReq).RespondRwrite(req, count)
+//@   property C03 C06
+//@   requires reqwf(req) && nolocks()
+//@   assigns  everything
+//@ func (*SrvReq).RespondRclunk(req)
+//@   property C03 C06
+//@   requires reqwf(req) && nolocks()
+//@   assigns  everything
+//@ func (*SrvReq).RespondRremove(req)
+//@   property C03 C06
+//@   requires reqwf(req) && nolocks()
+//@   assigns  everything
+//@ func (*SrvReq).RespondRwstat(req)
+//@   property C03 C06
+//@   requires reqwf(req) && nolocks()
+//@   assigns  everything
+//@ func (*SrvReq).RespondRstat(req, st)
+//@   property C03 C06 C12
+//@   requires reqwf(req) && nolocks() && st != nil && strsok(st) && statsize(st, req.Conn.Dotu) <= 65535
+//@   assigns  everything
+
+//@ func (*Srv).auth(srv, req)
+//@   property C05 C06 C04
+//@   requires srv != nil && reqwf(req) && req.Conn.Srv == srv && nolocks()
+//@   ghost nans int = 0
+//@   at call((*SrvReq).RespondError) ghost nans := nans + 1
+//@   at call((*SrvReq).RespondRauth) ghost nans := nans + 1
+//@   at call((*SrvReq).RespondError)#2 requires [inuse] arg1 == Einuse && old(inmap(req.Conn.fidpool, req.Tc.Afid))
+//@   at call(AuthOps.AuthInit) requires [newafid] !old(inmap(req.Conn.fidpool, req.Tc.Afid)) && old(req.Tc.Afid) != 4294967295 && arg1 != nil && arg1.fid == old(req.Tc.Afid) && arg1.User != nil && arg1.Type == 8
+//@   ensures  nans == 1
+
+//@ func (*Srv).attach(srv, req)
+//@   property C05 C06 C04
+//@   requires srv != nil && reqwf(req) && req.Conn.Srv == srv && nolocks() && poolok(req.Conn)
+//@   ghost nfwd int = 0
+//@   ghost nans int = 0
+//@   ghost authok bool = false
+//@   at call((*SrvReq).RespondError) ghost nans := nans + 1
+//@   at call(AuthOps.AuthCheck) after authok := ret == nil
+//@   at call(SrvReqOps.Attach) ghost nfwd := nfwd + 1
+//@   at call((*SrvReq).RespondError)#2 requires [inuse] arg1 == Einuse && old(inmap(req.Conn.fidpool, req.Tc.Fid))
+//@   at call(SrvReqOps.Attach) requires [guard.auth] implements(srv.ops, "AuthOps") ==> authok
+//@   at call(SrvReqOps.Attach) requires [args] arg1 == req && req.Tc == old(req.Tc) && !old(inmap(req.Conn.fidpool, req.Tc.Fid)) && old(req.Tc.Fid) != 4294967295
+//@   ensures  nfwd + nans == 1
+
+//@ func (*SrvReq).Process(req)
+//@   property C04 C05 C06
+//@   requires reqwf(req) && poolok(req.Conn) && nolocks() && len(req.Rc.Buf) >= req.Conn.Msize
+//@   at call((*Srv).walk) requires [fid] old(inmap(req.Conn.fidpool, req.Tc.Fid)) && req.Fid == old(req.Conn.fidpool[req.Tc.Fid])
+//@   at call((*Srv).open) requires [fid] old(inmap(req.Conn.fidpool, req.Tc.Fid)) && req.Fid == old(req.Conn.fidpool[req.Tc.Fid])
+//@   at call((*Srv).create) requires [fid] old(inmap(req.Conn.fidpool, req.Tc.Fid)) && req.Fid == old(req.Conn.fidpool[req.Tc.Fid])
+//@   at call((*Srv).read) requires [fid] old(inmap(req.Conn.fidpool, req.Tc.Fid)) && req.Fid == old(req.Conn.fidpool[req.Tc.Fid])
+//@   at call((*Srv).write) requires [fid] old(inmap(req.Conn.fidpool, req.Tc.Fid)) && req.Fid == old(req.Conn.fidpool[req.Tc.Fid])
+//@   at call((*Srv).clunk) requires [fid] old(inmap(req.Conn.fidpool, req.Tc.Fid)) && req.Fid == old(req.Conn.fidpool[req.Tc.Fid])
+//@   at call((*Srv).remove) requires [fid] old(inmap(req.Conn.fidpool, req.Tc.Fid)) && req.Fid == old(req.Conn.fidpool[req.Tc.Fid])
+//@   at call((*Srv).stat) requires [fid] old(inmap(req.Conn.fidpool, req.Tc.Fid)) && req.Fid == old(req.Conn.fidpool[req.Tc.Fid])
+//@   at call((*Srv).wstat) requires [fid] old(inmap(req.Conn.fidpool, req.Tc.Fid)) && req.Fid == old(req.Conn.fidpool[req.Tc.Fid])
+
+// The user database and the authentication callbacks (assumed behaviour of the embedder's code):
+// lookups do not touch framework state; AuthInit returns a qid when it returns no error.
+//@ iface Users.Uid2User(u, uid) (user)
+//@   assigns  nothing
+//@ iface Users.Uname2User(u, uname) (user)
+//@   assigns  nothing
+//@ iface AuthOps.AuthInit(op, afid, aname) (aqid, err)
+//@   ensures  err == nil ==> aqid != nil
+//@   ensures  errwf(err)
+//@   assigns  everything
+//@ iface AuthOps.AuthCheck(op, fid, afid, aname) (err)
+//@   ensures  errwf(err)
+//@   assigns  everything
